@@ -245,6 +245,18 @@ func genC06(t *rapid.T, tier string) (*World, any) {
 		pairText = " -- " + strings.Join(parts, " ")
 		feat["pairs"] = true
 	}
+	// an entry that IS a pair's key (not merely ends in it) is rewritten as well; only for pairs that do not delete
+	if len(pairs) > 0 && chance(t, 25, "entry-is-key") {
+		pr := pairs[drawInt(t, 0, len(pairs)-1, "which-key")]
+		if pr.New != `""` && !seenEntry[pr.Old] {
+			fLines = append(fLines, pr.Old)
+			fEntries = append(fEntries, pr.Old)
+			seenEntry[pr.Old] = true
+			universe[pr.Old] = true
+			w.Put("crs/regex-assembly/include/words.ra", joinLines(fLines))
+			feat["entry-is-key"] = true
+		}
+	}
 	// the model
 	var survivors []string
 	for _, e := range fEntries {
@@ -319,13 +331,30 @@ func genC06(t *rapid.T, tier string) (*World, any) {
 	if inBlock {
 		feat["in-block"] = true
 	}
-	p.Prog = build([]string{directive})
+	mid := []string{directive}
+	var twinTyped []string
+	if p.Kind == "include-except" && chance(t, 20, "twin") {
+		// two include files define the same name differently and share one exclude file that refers to it
+		w.Put("crs/regex-assembly/include/twin-a.ra", "##!> define sep mm\nfoo{{sep}}bar\nkeepa\n")
+		w.Put("crs/regex-assembly/include/twin-b.ra", "##!> define sep nn\nfoo{{sep}}bar\nkeepb\n")
+		w.Put("crs/regex-assembly/exclude/twin-x.ra", "foo{{sep}}bar\n")
+		mid = append(mid, "##!> include-except twin-a twin-x", "##!> include-except twin-b twin-x")
+		twinTyped = []string{"keepa", "keepb"}
+		for _, k := range twinTyped {
+			p.Expect = append(p.Expect, []string{k})
+			universe[k] = true
+		}
+		universe["foommbar"] = true
+		universe["foonnbar"] = true
+		feat["twin-directives"] = true
+	}
+	p.Prog = build(mid)
 	for _, e := range extra {
 		p.Expect = append(p.Expect, []string{e})
 		universe[e] = true
 	}
 	if !feat["duplicate"] && !competing {
-		p.Typed = build(typedWords)
+		p.Typed = build(append(append([]string{}, typedWords...), twinTyped...))
 	} else if feat["duplicate"] && !competing {
 		// positions of every distinct surviving entry
 		pos := map[string][]int{}
@@ -352,7 +381,7 @@ func genC06(t *rapid.T, tier string) (*World, any) {
 						words = append(words, f[0])
 					}
 				}
-				txt := build(words)
+				txt := build(append(words, twinTyped...))
 				if !seenAlt[txt] {
 					seenAlt[txt] = true
 					p.TypedAlts = append(p.TypedAlts, txt)
